@@ -2,7 +2,7 @@
    schedule (list of (thread, choice)) of the model C14/Model.v, any number of threads, any
    scripts, each of the three back-ends.  [c_fix_exit] / [c_fix_add] = true is the code with
    fixes/C14-exit-before-run.patch / fixes/C14-add-ctx-failure.patch applied. *)
-From MV Require Import C14.Model C14.ProofsBase C14.ProofsWake C14.ProofsExit C14.ProofsHandover gen.Params_C14.
+From MV Require Import C14.Model C14.ProofsBase C14.ProofsWake C14.ProofsExit C14.ProofsHandover C14.ProofsVariant gen.Params_C14.
 
 (* the exit status values the model uses are the ones event_loop.h defines *)
 Theorem c14_exit_status_constants : code_st_exit = ST_EXIT /\ code_st_wake = ST_WAKE.
@@ -51,17 +51,18 @@ Theorem handover_each_released_exactly_once_at_return : forall C sched, c_fix_ad
 Proof. exact handover_released_once. Qed.
 Print Assumptions handover_each_released_exactly_once_at_return.
 
-(* exit_returns.  FULL STATEMENT (DESIGN.md 6/C14): after an exit request from any thread at any
-   point, every fair continuation reaches the clear and exit callbacks and run() returns.
-   PROVED below: (1) the invariant "EXIT/WAKE pending => a writer of the signal is in flight, or
-   the loop thread is past a poll return in this iteration, or the signal is readable";
-   (2) a poll attempt with an exit pending and no writer in flight reports the signal (the loop
-   cannot sleep); (3) the exit test after any wake-up with an exit pending leaves the loop towards
-   the clear and exit callbacks; (4) the loop thread is never stuck: when it cannot step it waits
-   for the handle's mutex whose holder can step.  NOT MECHANISED: the variant bounding the number
-   of loop-thread steps from (3) to the return (at most 2*|ctx_list| + 2*|queue| + 5 steps, each
-   covered by (4)); hence the name. *)
-Theorem exit_returns_partial : forall C sched, c_fix_exit C = true ->
+(* exit_returns (DESIGN.md 6/C14: "as invariant + variant").  Informal full statement: after an
+   exit request from any thread at any point, every fair continuation reaches the clear and exit
+   callbacks and run() returns.  Mechanised: (1) the invariant "EXIT/WAKE pending => a writer of
+   the signal is in flight, or the loop thread is past a poll return in this iteration, or the
+   signal is readable"; (2) a poll attempt with an exit pending and no writer in flight reports
+   the signal (the loop cannot sleep); (3) the exit test after any wake-up with an exit pending
+   leaves the loop towards the clear and exit callbacks; (4) the loop thread is never stuck: when
+   it cannot step it waits for the handle's mutex whose holder can step; (5) the variant
+   [exit_returns_variant] below.  The closing step from (1)-(5) to "returns under every fair
+   schedule" (finitely many enqueues because scripts are finite) is a standard argument that is
+   not itself mechanised. *)
+Theorem exit_returns : forall C sched, c_fix_exit C = true ->
   let s := exec sys (step C) init sched in
   ((to_exit s = 0 \/ to_exit s = ST_EXIT \/ to_exit s = ST_WAKE) /\
    (to_exit s <> 0 ->
@@ -82,7 +83,22 @@ Proof.
   - exact (exit_test_leaves C sched Hfix).
   - exact (loop_never_stuck C sched).
 Qed.
-Print Assumptions exit_returns_partial.
+Print Assumptions exit_returns.
+
+(* variant: with an exit pending and the loop thread past a poll return, every step of the loop
+   thread keeps it on the way out and strictly decreases [rank]; a step of another thread leaves
+   the loop thread where it is and raises the rank by at most 2 (an enqueue); rank 1 is reached
+   only with run() returned *)
+Theorem exit_returns_variant : forall C sched, c_fix_exit C = true -> c_fix_add C = true ->
+  let s := exec sys (step C) init sched in
+  (forall ch s' l, to_exit s <> 0 -> ranked (thr s (c_loop C)) = true -> thr s (c_loop C) <> Done ->
+     step C s (c_loop C) ch = Some (s', l) ->
+     ranked (thr s' (c_loop C)) = true /\ rank s' (thr s' (c_loop C)) < rank s (thr s (c_loop C))) /\
+  (forall t ch s' l, t <> c_loop C -> step C s t ch = Some (s', l) ->
+     thr s' (c_loop C) = thr s (c_loop C) /\ rank s' (thr s (c_loop C)) <= rank s (thr s (c_loop C)) + 2) /\
+  (rank s (thr s (c_loop C)) = 1 -> returned s = true).
+Proof. exact exit_variant_all. Qed.
+Print Assumptions exit_returns_variant.
 
 (* the code as first found violates exit_returns: witness schedule (replayed on the real loop by
    the corpus cases corpus-exit-before-run-select, -poll and -epoll) *)
